@@ -18,7 +18,7 @@ func c10Alphabet(thorough bool) []string {
 		// nested addresses: removing the sub-entity [1,1] leaves the entries of its parent [1] alone and vice versa
 		"sub:A:e11f1:L1lc:lc:d", "bind:A:e11f1:L2lc:lc:d", "entrm:A:11", "sub:A:e1f1:L11lc:lc:d",
 		// a request of the removed peer that its reader was still processing when the connection was removed
-		"late:sub:A:e1f1:L1lc", "late:bind:A:e1f1:L2lc",
+		"late:sub:A:e1f1:L1lc", "late:bind:A:e1f1:L2lc", "entrm:A:1:bad",
 	}
 	if thorough {
 		a = append(a, "entadd:B:1", "lsub:2:B:2", "lbind:2:A:2", "sub:A:e1f2:L1lc:lc:d", "entrm:B:2", "set:L2lc:2")
